@@ -259,7 +259,7 @@ def plan(tier: str) -> List[Dict[str, Any]]:
 def main(tier: str, budget_s: Optional[float] = None) -> int:
     t0 = time.time()
     deadline = t0 + (budget_s or (180 if tier == "quick" else 1800))
-    total, info, complete = run_phases(plan(tier), generic_worker, FIRST, SYMBOLS, EXTRA, deadline, __name__)
+    total, info, complete = run_phases(plan(tier), generic_worker, FIRST, SYMBOLS, EXTRA, deadline, __name__, by_depth=True)
     fe = fe_cases(tier)
     n = max(1, min(len(fe), common.NPROC * 4))
     chunks = [fe[i::n] for i in range(n)]
